@@ -225,12 +225,28 @@ pub fn run_batch(scenarios: Arc<Vec<Scenario>>, threads: usize, want_samples: us
                         break;
                     }
                     let sc = &scenarios[i];
-                    let obs = run_scenario(sc);
+                    // (a panic of the harness itself must not take the worker - and with it
+                    // every later scenario - away silently)
+                    let obs = match std::panic::catch_unwind(std::panic::AssertUnwindSafe(|| run_scenario(sc))) {
+                        Ok(o) => o,
+                        Err(e) => {
+                            let msg = e.downcast_ref::<String>().cloned().or_else(|| e.downcast_ref::<&str>().map(|s| s.to_string())).unwrap_or_else(|| "?".into());
+                            Observation { harness_error: Some(format!("the harness panicked while running the scenario: {}", msg)), ..Default::default() }
+                        }
+                    };
                     local.runs += 1;
                     *local.by_tier.entry(format!("{:?}", sc.tier)).or_insert(0) += 1;
                     *local.lanes.entry(sc.lane.split('/').next().unwrap_or("").to_string()).or_insert(0) += 1;
                     let mut herr = obs.harness_error.clone().or_else(|| obs.confused());
-                    let (viol, facts, judgements) = judge(sc, &obs);
+                    let judged = std::panic::catch_unwind(std::panic::AssertUnwindSafe(|| judge(sc, &obs)));
+                    let (viol, facts, judgements) = match judged {
+                        Ok(j) => j,
+                        Err(e) => {
+                            let msg = e.downcast_ref::<String>().cloned().or_else(|| e.downcast_ref::<&str>().map(|s| s.to_string())).unwrap_or_else(|| "?".into());
+                            herr = Some(format!("the harness panicked while judging the scenario: {}", msg));
+                            (vec![], Facts::default(), vec![])
+                        }
+                    };
                     local.sim_time_ns += obs.end_time_ns as u128;
                     local.events += obs.events;
                     local.spawns += facts.procs.len() as u64;
@@ -290,6 +306,14 @@ pub fn run_batch(scenarios: Arc<Vec<Scenario>>, threads: usize, want_samples: us
         let _ = h.join();
     }
     let mut o = Arc::try_unwrap(outcomes).ok().unwrap().into_inner().unwrap();
+    o.sort_by_key(|x| x.idx);
+    // every scenario must have an outcome: a worker that went away is a harness error, never a pass
+    let have: BTreeSet<usize> = o.iter().map(|x| x.idx).collect();
+    for i in 0..n {
+        if !have.contains(&i) {
+            o.push(Outcome { idx: i, violations: vec![], harness_error: Some("no outcome: the worker running this scenario went away".into()) });
+        }
+    }
     o.sort_by_key(|x| x.idx);
     let st = Arc::try_unwrap(stats).ok().unwrap().into_inner().unwrap();
     (o, st)
